@@ -147,11 +147,15 @@ def run(ctx):
     dec = [it['path'] for it in f.items_all if it.get('kind') == 'AssocFn' and it.get('impl_trait_def') == 'tokio_util::codec::decoder::Decoder' and it['path'].endswith('::decode')]
     D = hirq.Body(f, f.body(anchors.one('Decoder::decode', dec)))
     ctx.analysed['bodies'].add(D.path)
+    import wrapper
     if not fields:
         ctx.ok('G4.stateless-codec', 'LdapCodec', '', 'the codec has no fields in this configuration')
-        douts = absx.Interp(f, D).run()
-        ok = len(douts) == 1 and douts[0].val[0] == 'call' and douts[0].val[1] == dp and douts[0].val[2] == (('param', 'buf'),)
-        ctx.add('G4.decode-is-frame-decoder', D.path, loc(D.root), ok, 'Decoder::decode is not the frame decoder applied to the caller\'s buffer')
+        if D.path == dp:
+            ctx.ok('G4.decode-is-frame-decoder', D.path, loc(D.root), 'Decoder::decode is itself the frame decoder (decided by G1 / G2)')
+        else:
+            # every path of decode answers what the frame decoder answers for the caller's buffer; a test of its own may answer
+            # Ok(None) only where the frame decoder would (rules/wrapper.py: decided per value of the first length octet)
+            wrapper.check(ctx, f, D, dp, 'G4.decode-is-frame-decoder')
     else:
         # gssapi: the SASL layer keeps state; the frame decoder itself (G1/G2 above) is what is decided, on whichever buffer it is given
         calls = [n for n, c in walk(D.root) if n['k'] == 'Call' and callee_of(n) == dp]
@@ -160,6 +164,9 @@ def run(ctx):
         # G7 the SASL token layer adds no rejection of its own and waits without consuming: every Err path of decode is the frame
         # decoder's own answer or the failure of the unwrap primitive; in particular a path that found fewer bytes buffered than it
         # needs (a length comparison that holds) answers Ok(None).  A literal Ok(None) path has not touched the buffer.
+        # G7 (plain connection) with the codec in the state it is constructed in - no security layer was negotiated - decode is the
+        # frame decoder applied to the caller's buffer, exactly as in the configuration without the layer (rules/wrapper.py)
+        wrapper.check(ctx, f, D, dp, 'G7.plain-connection-is-frame-decoder')
         buf = ('param', 'buf')
         n_err = n_wait = 0
         for o in absx.Interp(f, D, combinators=True).run():
